@@ -17,6 +17,7 @@ from pySDC.core.convergence_controller import ConvergenceController
 from pySDC.core.hooks import Hooks
 
 PID = 'C19'
+BOUNDS = {'quick': dict(configurations=7, steps='<=4', scenarios=5), 'thorough': dict(configurations=13)}
 
 
 def describe(rep):
